@@ -49,7 +49,7 @@ def _m1():
         ('idg', 'g', 1), ('idg', 'g', 2), ('idg-', 'g'),
         ('state', 's0', 'frozen', 0), ('state', 's0', 'up', -1),
         ('bl', 1), ('bl', 0), ('blk', 's0', 1), ('blk', 's0', 0),
-        ('tick', 40), ('noop',), ('restart',),
+        ('tick', 40), ('tick', 2 * 24 * 3600), ('noop',), ('restart',),
     )
     return cfg
 
